@@ -89,7 +89,11 @@ class Aggregation(keras.layers.Layer):
 
   @classmethod
   def from_config(cls, config, custom_objects=None):
-    model = keras.utils.legacy.deserialize_keras_object(
-        config.pop('model'), custom_objects=custom_objects
+    # keras.layers.deserialize knows the built-in model classes ('Functional',
+    # 'Sequential', 'Model'), which the bare object deserializer does not.
+    model = keras.layers.deserialize(
+        config.pop('model'),
+        custom_objects=custom_objects,
+        use_legacy_format=True,
     )
     return cls(model, **config)
